@@ -711,15 +711,16 @@ func (r *Router) Find(method, path string, c Context) {
 
 		// Let's backtrack to the first possible alternative node of the decision path
 		nk, ok := backtrackToNextNodeKind(anyKind)
+		for ok && nk == staticKind {
+			// we returned from any node, so all alternatives of its parent are exhausted. Continue backtracking from parent
+			nk, ok = backtrackToNextNodeKind(anyKind)
+		}
 		if !ok {
 			break // No other possibilities on the decision path
 		} else if nk == paramKind {
 			goto Param
 		} else if nk == anyKind {
 			goto Any
-		} else {
-			// Not found
-			break
 		}
 	}
 
